@@ -189,10 +189,12 @@ func (rw *remoteUnit) startRemoteUnit(ctx context.Context, conn net.Conn, reader
 		return fmt.Errorf("could not parse response: %s", strings.TrimRight(response, "\n"))
 	}
 	red.RemoteUnitID = string(match[1])
+	verifPoint("remote.acked", "")
 	rw.UpdateFullStatus(func(status *StatusFileData) {
 		ed := status.ExtraData.(*RemoteExtraData)
 		ed.RemoteUnitID = red.RemoteUnitID
 	})
+	verifPoint("remote.id_saved", "")
 	stdin, err := os.Open(path.Join(rw.UnitDir(), "stdin"))
 	if err != nil {
 		return fmt.Errorf("error opening stdin file: %s", err)
@@ -214,10 +216,12 @@ func (rw *remoteUnit) startRemoteUnit(ctx context.Context, conn net.Conn, reader
 	if match != nil {
 		return fmt.Errorf("error from remote: %s", match[1])
 	}
+	verifPoint("remote.before_started", "")
 	rw.UpdateFullStatus(func(status *StatusFileData) {
 		ed := status.ExtraData.(*RemoteExtraData)
 		ed.RemoteStarted = true
 	})
+	verifPoint("remote.started_saved", "")
 
 	return nil
 }
@@ -342,6 +346,7 @@ func (rw *remoteUnit) monitorRemoteStatus(mw *utils.JobContext, forRelease bool)
 
 			return
 		}
+		verifPoint("remote.status_mirror", "")
 		rw.UpdateBasicStatus(si.State, si.Detail, si.StdoutSize)
 		if rw.LastUpdateError() != nil {
 			writeStatusFailures++
@@ -484,6 +489,7 @@ func (rw *remoteUnit) monitorRemoteStdout(mw *utils.JobContext) {
 					return
 				}
 			}()
+			verifPoint("remote.stdout_copy", "")
 			_, err = io.Copy(stdout, reader)
 			close(doneChan)
 			if err != nil {
